@@ -54,6 +54,9 @@ pub enum Nest {
     SumRepeatFailed,
     RepeatFailedSum,
     RepeatSkippedSum,
+    /// `Repeat` with a filter that matches everything: the whole stream, run-Finished
+    /// included, is replayed into `Summarize`
+    RepeatAllSum,
 }
 
 /// How the events of the two scenarios are laid out in the (raw, not normalised) stream
@@ -553,6 +556,21 @@ pub fn run_nest(nest: Nest, src: &Sources, stream: &[Ev]) -> (Observed, Vec<Seen
             |w: &S2| observe_sum(w.inner_writer()),
             |w: &S2| w.inner_writer().inner_writer().seen.clone()
         ),
+        Nest::RepeatAllSum => go!(
+            Rec::default().summarized().repeat_if::<TW, _>((|_| true) as cucumber::writer::repeat::FilterEvent<TW>),
+            |w: &S2| observe_sum(w.inner_writer()),
+            |w: &S2| {
+                // the recording writer sees the replay as well: keep what came up to the
+                // first run-Finished plus every write
+                let seen = &w.inner_writer().inner_writer().seen;
+                let fin = seen.iter().position(|s| matches!(s, Seen::Event(Ev::Finished))).unwrap_or(seen.len());
+                seen.iter()
+                    .enumerate()
+                    .filter(|(i, s)| *i <= fin || matches!(s, Seen::Write(_)))
+                    .map(|(_, s)| s.clone())
+                    .collect()
+            }
+        ),
     }
 }
 
@@ -813,13 +831,13 @@ pub fn cases(thorough: bool) -> Vec<Case> {
     out
 }
 
-pub const NESTS: [Nest; 4] =
-    [Nest::Sum, Nest::SumRepeatFailed, Nest::RepeatFailedSum, Nest::RepeatSkippedSum];
+pub const NESTS: [Nest; 5] =
+    [Nest::Sum, Nest::SumRepeatFailed, Nest::RepeatFailedSum, Nest::RepeatSkippedSum, Nest::RepeatAllSum];
 
 /// Variants run per case: the four nestings over parsed features, plus plain
 /// `Summarize` over the same features with every position erased (what a custom
 /// parser building features programmatically hands over).
-pub const VARIANTS: usize = 5;
+pub const VARIANTS: usize = 6;
 
 pub fn variant(cfg: &Config, vi: usize) -> (Nest, Sources) {
     if vi < NESTS.len() {
@@ -1104,7 +1122,7 @@ pub fn run(a: &ShardArgs) -> serde_json::Value {
         "property": "C12", "tier": a.tier,
         "total_configs": cases.len(), "configs_done": done, "configs_skipped_budget": skipped,
         "evaluations": evaluations, "distinct_nontrivial": nontrivial.len(),
-        "rule": "every case of the grammar (scenario shape x hooks x retry budget x fault chain x second scenario x placement x layout of the two scenarios in the raw stream (sequential, U between two attempts of T, events alternating) x parser errors x transform) through 4 nestings of Summarize/Repeat, plus plain Summarize over the same features with all positions erased (programmatically built features); non-trivial = distinct streams containing a retry, a failure, a skip or a parser error",
+        "rule": "every case of the grammar (scenario shape x hooks x retry budget x fault chain x second scenario x placement x layout of the two scenarios in the raw stream (sequential, U between two attempts of T, events alternating) x parser errors x transform) through 5 nestings of Summarize/Repeat (one replaying the whole stream, run-Finished included), plus plain Summarize over the same features with all positions erased (programmatically built features); non-trivial = distinct streams containing a retry, a failure, a skip or a parser error",
         "exhaustive": skipped == 0,
         "details": {"unrealisable_cases": unrealisable, "known_finding_hits": known},
         "violations": violations, "samples": samples,
